@@ -248,6 +248,11 @@ unsigned int irc_pton(irc_inaddr *addr, unsigned int *bits, const char *input, i
                 *bits = 128;
             goto finish;
         }
+        /* All eight groups were ended by a ':' (the last one by the
+         * second ':' of a trailing "::"): still a plain address.
+         */
+        if (bits)
+            *bits = 128;
     finish:
         /* Shift stuff after "::" up and fill middle with zeros. */
         if (cpos < 8) {
